@@ -107,7 +107,8 @@ def make_overlap_problem(rng, k):
     RG.add_terms(S, rng, "s", True, tk, xl=())
     case = dict(name="cluster:" + name, tags=[], els=els, pos=np.array(pos), cell=cell, pel=sel_el, pp=sp, atol=Fraction(1, 20), hints=None,
                 planted=[], planted_offs=[], decoys=[], distractors=0, cellkind=ckind, crossing=[], k=k)
-    return dict(case=case, S=S, search=search, repl=repl, mode="overlap-" + mode, coeffs=True, atol=Fraction(1, 20), hints=None, cif_like=False)
+    return dict(case=case, S=S, search=search, repl=repl, mode="overlap-" + mode, coeffs=True, atol=Fraction(1, 20), hints=None, cif_like=False,
+                empty_keeps_tables=(mode == "empty" and k % 2 == 1))
 
 
 def make_runs(run):
